@@ -29,6 +29,10 @@ CLAIMED = {
     "C30": ("Two regions, each undeclared or declared BIT/OCTET/INTEGER/REAL, and <= N body instructions (quick 2, thorough 3) from 28 templates (every arithmetic, comparison, "
             "logic, MOVE/EXCHANGE/LOAD/STORE, frame-update and pulse form) with solver-chosen region names: the real type_check against a typing table written from the "
             "statement; the verdict is invariant under reordering, duplication and consistent renaming.", TRUST, "5/C30"),
+    "C31": ("CALL resolution only: a signature of <= P parameters (quick 2, thorough 3; scalar / fixed / variable-length vector, element type, length, mutability solver-chosen) with an "
+            "optional return type, a CALL of <= P+1 arguments (memory reference / identifier / immediate over regions a, b, c), regions declared or not with solver-chosen type and "
+            "length: the real Call::resolve_arguments resolves iff the count matches and every argument fits its slot as the statement says. The sentence about printing and "
+            "re-parsing signatures goes through the lexer and is NOT covered.", TRUST + "; signature text round trip outside the claim", "5/C31"),
     "C33": ("Bodies of <= 2 instructions with <= 2 definitions, iteration count a symbolic 32-bit value for the shape obligations (prologue, body once, decrement, JUMP-WHEN, "
             "definitions kept, source untouched) and n in {0,1,2,3,5} executed by a small interpreter of the five control instructions: the body runs exactly n times.",
             TRUST, "5/C33"),
